@@ -65,9 +65,11 @@ UNPROVED_OBSERVED = (["%s (run time: ulps vs glibc, tolerance in harness/c16_tol
                      + ["complex %s (vs std::complex, tolerance relative to the modulus)" % f for f in COMPLEX + COMPLEX2]
                      + ["lerp, midpoint<float/double>, fma (bit-identical to libstdc++/glibc on special-value grid + seeded random)"])
 # members with a Lean model/spec compared on every run, but no theorem
-CORRESPONDENCE_ONLY = ["fdim (spec: correctly rounded x-y via rne; no theorem about rne)",
+CORRESPONDENCE_ONLY = ["lrint, llrint (spec = intMag .halfEven with range check; the theorems are about rint/intMag, the integer conversion itself has none)",
+                       "fdim (spec: correctly rounded x-y via rne; no theorem about rne)",
                        "fmod, remainder (spec: mag x % mag y re-encoded by ofMag; no theorem that ofMag decodes back)",
-                       "gcem floor/ceil/trunc/round on the constant-evaluated path (model gcemFloor.. mirrors gcem incl. its defects; counterexample theorems only)",
+                       "gcem floor/ceil/trunc/round on the constant-evaluated path (model gcemFloor.. mirrors gcem incl. its defects; counterexample theorems only, no *_partial theorem)",
+                       "key order = value order (key monotone in mag): nextafter_adjacent, fmin_spec, fmax_spec are stated on `key`",
                        "rint_fallback / lrint_fallback on the constant-evaluated path (model = code; no theorem)",
                        "fmod, remainder on the constant-evaluated path (gcem x - trunc(x/y)*y: not modelled, known finding)"]
 
@@ -475,4 +477,16 @@ LEVEL_NOTE = ("Partial (DESIGN §6): sqrt, exp, log*, pow, trigonometric/hyperbo
               "tolerance and listed under coverage.unproved_observed. Run-time paths that call a compiler builtin are assumed to "
               "implement the C function (observed on every explored input). Members with a spec but no theorem: "
               "coverage.correspondence_only. Known findings: abs(-0.0), gcem's constant-evaluated floor/ceil/trunc/round/fmod.")
-THEOREMS = {}
+P = "Tetl.C16.Props."
+THEOREMS = {
+    "u": [P + n for n in ("floor_spec", "ceil_spec", "trunc_spec", "round_spec", "rint_spec", "rounding_special", "rnd_exact",
+                          "intMag_trunc", "intMag_away", "intMag_halfAway", "intMag_halfEven", "classify_partition",
+                          "fabs_spec", "isfinite_eq", "absImpl_eq_partial")],
+    "cu": [P + n for n in ("signbitFallback_eq", "gcemFloor_counterexample", "gcemCeil_counterexample",
+                           "gcemTrunc_counterexample", "gcemRound_counterexample", "absImpl_counterexample")],
+    "b": [P + n for n in ("copysign_spec", "fmin_model_eq", "fmax_model_eq", "fmin_spec", "fmax_spec", "fmin_nan",
+                          "nextafter_model_eq", "nextafter_adjacent", "nextafter_special")],
+    "cb": [P + n for n in ("copysignFallback_eq", "nextafter_model_eq", "fmin_model_eq", "fmax_model_eq")],
+}
+THEOREMS["uv"] = THEOREMS["u"]
+THEOREMS["bv"] = THEOREMS["b"]
